@@ -596,6 +596,9 @@ func (d *refDoc) setFeatures(sets []int) []string {
 					if len(r.kids) > 0 {
 						out = append(out, "nested-empty-blocks")
 					}
+					if r.emptyByReading {
+						out = append(out, "first-child-collapsed-through")
+					}
 					// the set holds the top margin of a box that is not collapsed through
 					// and the margins of its (first child's ...) collapsed-through first child
 					for p := r.parent; p != nil; p = p.parent {
